@@ -1,10 +1,10 @@
 """C01M - mechanism-level model M (coq/Core/Mech.v) of the component renderer, tied to the implementation and to the
-reference renderer S (coq/Core/Sem.v) on every run.
+reference renderer S (coq/Core/Sem.v) on every run.  Deepens C01 / C03 / C05 (which are decided against S only).
 
   implementation vs M : must agree on EVERY generated program, with and without variable-name collisions
                         (M is a model of the code: it must reproduce the corners where the code deviates from S)
-  M vs S              : must agree on programs without name collisions (and is proved for the fragment of
-                        Props/C01M.v); with collisions the deviations are counted and reported, never alarmed on
+  M vs S              : must agree on programs without name collisions (and is proved for the fragment wf_prog of
+                        Props/C01M.v); with collisions / django+only the deviations are counted and reported, never alarmed on
 """
 import json
 import os
@@ -16,6 +16,7 @@ import c01
 
 IMPORTS = "From DJC Require Import Lib.Base Core.Syntax Core.Sem Core.Mech."
 VERBOSE = os.environ.get("C01M_VERBOSE")
+CORPUS = os.path.join(C.VERIF, "corpus", "C01M")
 
 
 def nontrivial(feats):
@@ -43,9 +44,12 @@ def coq_eval(tag, case_type, fn, terms, shard=None):
     return C.coq_eval_cases("C01M", tag, IMPORTS, case_type, fn, terms, shard=shard)
 
 
+def smallest(idx, meta, k):
+    return sorted(idx, key=lambda i: len(json.dumps(meta[i][0])))[:k]
+
+
 def check_batch(chk, progs, tag, key, ms_must_agree):
     """implementation vs M on every program; M vs S on every program (alarm only when ms_must_agree)"""
-    collide = not ms_must_agree
     terms, pterms, meta, diverge = [], [], [], []
     for prog in progs:
         feats = G.features(prog)
@@ -69,15 +73,19 @@ def check_batch(chk, progs, tag, key, ms_must_agree):
         chk.dist["%s:impl-RecursionError/M-out-of-fuel" % key] += len(diverge) - len(nd)
         for i in nd[:3]:
             chk.disagree("implementation raised RecursionError but M terminates (batch %s)" % key, dict(describe(diverge[i]), program=diverge[i]))
+    # ---- one pass in which everything agrees (the common case); separate passes only over what differs
+    first = coq_eval(tag + "a", "core_case", "check_all" if ms_must_agree else "check_mech_restored", terms)
+    sub = [terms[i] for i in first]
+    psub = [pterms[i] for i in first]
     # ---- implementation vs M
-    bad = coq_eval(tag + "m", "core_case", "check_mech", terms)
+    bad = [first[j] for j in coq_eval(tag + "m", "core_case", "check_mech", sub)]
     if bad:
-        unsup = set(coq_eval(tag + "u", "core_case", "mech_supported", [terms[i] for i in bad]))
+        unsup = coq_eval(tag + "u", "core_case", "mech_supported", [terms[i] for i in bad])
         uns = {bad[j] for j in unsup}
         chk.dist["%s:outside-modelled-fragment" % key] += len(uns)
         bad = [i for i in bad if i not in uns]
         if ms_must_agree and uns:
-            i = sorted(uns, key=lambda i: len(json.dumps(meta[i][0])))[0]
+            i = smallest(uns, meta, 1)[0]
             chk.disagree("a collision-free program leaves the fragment M models (MUnsup)", {"program": meta[i][0], "implementation": meta[i][1]})
     maybe = [i for i in bad if meta[i][1][0] == "err" and meta[i][1][1] in c01.possible_kinds(meta[i][0]) and meta[i][0].get("nerr", 2) > 1]
     if maybe:
@@ -85,16 +93,18 @@ def check_batch(chk, progs, tag, key, ms_must_agree):
         ok = set(maybe) - {maybe[i] for i in still}
         chk.dist["error-class-order-ambiguous"] += len(ok)
         bad = [i for i in bad if i not in ok]
-    for i in sorted(bad, key=lambda i: len(json.dumps(meta[i][0])))[:5]:
+    for i in smallest(bad, meta, 5):
         prog, o = meta[i]
         if VERBOSE:
             print("IMPL-vs-M", json.dumps(describe(prog), indent=1), o)
-        chk.disagree("implementation and mechanism model M differ (batch %s)" % key,
-                     dict(describe(prog), program=prog, implementation=o))
+        chk.disagree("implementation and mechanism model M differ (batch %s)" % key, dict(describe(prog), program=prog, implementation=o))
     chk.dist["%s:impl-vs-M-agree" % key] += len(terms) - len(bad)
     chk.dist["%s:impl-vs-M-differ" % key] += len(bad)
     # ---- M vs S
-    bad2 = coq_eval(tag + "s", "prog", "check_ms", pterms)
+    if ms_must_agree:
+        bad2 = [first[j] for j in coq_eval(tag + "s", "prog", "check_ms", psub)]
+    else:
+        bad2 = coq_eval(tag + "s", "prog", "check_ms", pterms)
     if bad2:
         still = set(coq_eval(tag + "t", "prog", "check_ms_lenient", [pterms[i] for i in bad2]))
         amb = [bad2[j] for j in range(len(bad2)) if j not in still and meta[bad2[j]][0].get("nerr", 2) > 1]
@@ -102,19 +112,17 @@ def check_batch(chk, progs, tag, key, ms_must_agree):
     chk.dist["%s:M-vs-S-agree" % key] += len(pterms) - len(bad2)
     chk.dist["%s:M-vs-S-differ" % key] += len(bad2)
     if ms_must_agree:
-        for i in sorted(bad2, key=lambda i: len(json.dumps(meta[i][0])))[:5]:
+        for i in smallest(bad2, meta, 5):
             prog, o = meta[i]
             if VERBOSE:
                 print("M-vs-S", json.dumps(describe(prog), indent=1), o)
-            chk.disagree("mechanism model M and reference renderer S differ on a program without name collisions",
+            chk.disagree("mechanism model M and reference renderer S differ on a program without name collisions (batch %s)" % key,
                          dict(describe(prog), program=prog, implementation=o))
-    bad3 = coq_eval(tag + "r", "prog", "check_restored", pterms)
+    # ---- the page Context is left as it was (executable counterpart of ctx_restored)
+    bad3 = [first[j] for j in coq_eval(tag + "r", "prog", "check_restored", psub)]
     for i in bad3[:3]:
         chk.disagree("M: the page Context is not left with the layers it had", {"program": meta[i][0]})
     return len(bad), len(bad2)
-
-
-CORPUS = os.path.join(C.VERIF, "corpus", "C01M")
 
 
 def corpus_programs():
@@ -128,8 +136,8 @@ def corpus_programs():
 
 
 def check_fragment(chk, progs, tag):
-    """programs rewritten into the fragment of the theorem mech_refines_sem_isolated_partial: the statement of the theorem
-    is evaluated on them (wf_prog p -> M p = S p) and they are run on the implementation like every other program"""
+    """programs rewritten into the fragment of the theorem mech_refines_sem_isolated_partial: the statement of the theorem is
+    evaluated on them (wf_prog p -> M p = S p) and they are run on the implementation like every other program"""
     import c01m_util as U
     frag = [U.fragmentize(p) for p in progs]
     pterms = [G.c_prog(p) for p in frag]
@@ -146,6 +154,11 @@ def check_fragment(chk, progs, tag):
     return len(wf)
 
 
+# (tag, mode, collide, only, M-vs-S must agree)
+BATCHES = [("isod", "isolated", 0.0, 0.12, True), ("djad", "django", 0.0, 0.0, True), ("djao", "django", 0.0, 0.3, False),
+           ("isoc", "isolated", 0.35, 0.12, False), ("djac", "django", 0.35, 0.12, False)]
+
+
 def run(tier, seed):
     import djsetup
     import gen_constants
@@ -154,17 +167,15 @@ def run(tier, seed):
     gen_constants.generate(["C01M"])
     chk = C.Check("C01M", tier, seed)
     chk.prove()
-    n = 1200 if tier == "thorough" else int(os.environ.get("C01M_N", "220"))
+    n = 1200 if tier == "thorough" else int(os.environ.get("C01M_N", "200"))
     shared, own = corpus_programs()
     check_batch(chk, shared, "corpus", "corpus", True)
     check_batch(chk, own, "corpm", "corpus-C01M", False)
-    # (tag, mode, collide, only, M-vs-S must agree)
-    BATCHES = [("isod", "isolated", 0.0, 0.12, True), ("djad", "django", 0.0, 0.0, True), ("djao", "django", 0.0, 0.3, False),
-               ("isoc", "isolated", 0.35, 0.12, False), ("djac", "django", 0.35, 0.12, False)]
     keep = []
     for tag, mode, collide, only, must in BATCHES:
         progs = list(gen_programs(chk.rng, n, mode, collide, 0.3, only))
-        check_batch(chk, progs, tag, "%s/%s%s" % ("collide" if collide else "distinct", mode, "+only" if (only and mode == "django" and not collide) else ""), must)
+        key = "%s/%s%s" % ("collide" if collide else "distinct", mode, "+only" if (only and mode == "django" and not collide) else "")
+        check_batch(chk, progs, tag, key, must)
         if tag in ("isod", "djad"):
             keep.extend(progs[: n // 2])
     nwf = check_fragment(chk, keep, "frag")
@@ -201,5 +212,10 @@ def replay(path):
     prog = c01.fix_prog(r["case"]["program"])
     print(r.get("what"))
     print(json.dumps(describe(prog), indent=1))
-    print("implementation:", R.render_page(prog))
+    o = R.render_page(prog)
+    print("implementation:", o)
+    if not o[1].startswith("other:"):
+        t = "(%s, %s)" % (G.c_prog(prog), R.c_outcome(o))
+        print("implementation = M:", not coq_eval("rp", "core_case", "check_mech", [t]))
+        print("M = S:", not coq_eval("rq", "prog", "check_ms", [G.c_prog(prog)]))
     return 0
